@@ -2,25 +2,32 @@
 import copy, glob, json, os
 from harness import common
 from harness.common import coq_list
-from harness.c12 import EQB, REQ, NAMES, ms_term, tail
+from harness.c12 import EQB, REQ, NAMES, ms_term, tail, nm
 
 LEAF_GARBAGE = "leaf-garbage"
 LEAF_PROTOCOL_ERRORS = ("BooleanUnslicer only accepts", "NoneUnslicer does not accept", "UnicodeUnslicer only accepts",
-                        "already received a string", "duplicate key", "unhashable key")
+                        "already received a string", "duplicate key", "unhashable key",
+                        # the framing of the `arguments` sequence itself (not a schema question either)
+                        "posarg count must be an INT", "kwarg name must be a STRING", "'arguments' sequence ended too early")
 
 
 def run(ctx):
-    ctx.rule = ("(method schema of 1-3 arguments / result constraint built through the public vocabulary, hand-encoded banana "
-                "token stream): a conforming stream, or one single-point mutation of it (subtree of another type, boundary "
-                "size +-1, forged INT/LONGINT tokens, short/long tuples, empty boolean/unicode sequences, dangling dict key, "
-                "missing/extra/duplicate/unknown argument, positional<->keyword moves, back-reference to an earlier argument "
-                "of another shape) fed to a real Broker; non-trivial = the stream reached the ArgumentUnslicer/AnswerUnslicer")
-    ctx.assumptions = ["wire trees carry ASCII text only; set elements / dict keys are distinct and hashable",
-                       "the positional-argument count token always equals the number of positional wire trees",
-                       "regexp constraints, Copyable/Failure constraints, Shared, their-reference gifts and "
-                       "__ignoreUnknown__/__acceptUnknown__ method schemas are outside the model; RemoteInterface arguments: the "
-                       "receiver's side only (claimed interface name vs declared), judged against `declared or a sub-interface`",
-                       "ChoiceOf alternatives are token-level constraints here (ChoiceOf over containers is C12's finding D7a)",
+    ctx.rule = ("(method schema of 0-3 arguments, optionally with __ignoreUnknown__/__acceptUnknown__ / result constraint, built "
+                "through the public vocabulary; hand-encoded banana token stream): the children of the `arguments` sequence are a "
+                "conforming list, one single-point mutation of it (subtree of another type, boundary size +-1, forged INT/LONGINT "
+                "tokens, short/long tuples, empty boolean/unicode sequences, dangling dict key, missing/extra/duplicate/unknown "
+                "argument, positional<->keyword moves, back-reference to an earlier argument of another shape), or a hostile "
+                "FRAMING (count token larger / smaller than what follows, not an INT, missing; a value where a name is expected and "
+                "vice versa; a name without value; the sequence stopping anywhere), plus every required/Optional x positional-count "
+                "x keyword-subset binding of three arguments; fed to a real Broker; non-trivial = the stream reached the "
+                "ArgumentUnslicer/AnswerUnslicer")
+    ctx.assumptions = ["wire trees carry ASCII text only (a keyword name that is not valid UTF-8 is judged by the oracle and left out "
+                       "of the correspondence); set elements / dict keys are distinct and hashable",
+                       "regexp constraints, Copyable/Failure constraints, Shared, their-reference gifts and the CallUnslicer stages "
+                       "before the arguments are outside the model; RemoteInterface arguments: the receiver's side only (claimed "
+                       "interface name vs declared), judged against `declared or a sub-interface`",
+                       "ChoiceOf alternatives are token-level constraints in the generated families; ChoiceOf over containers (C12's "
+                       "finding D7a on the current tree) is exercised as RESULT constraint by a fixed family",
                        "TLS/negotiation replaced by a loopback Broker pair"]
     ok, log = ctx.coq_build(["props/C02.vo"])
     known = common.load_known()
@@ -254,6 +261,10 @@ def has_pend(ws):
 # --------------------------------------------------------------------------------------------------------------- calls
 def classify_dead(ctx, w, family, case, what):
     errs = w.recv_errors
+    if family == "choice-container" and errs and all(e.startswith("AssertionError") for e in errs):
+        # the setConstraint assertion of a child Unslicer under ChoiceOf: C12's known finding D7a (conforming values die too)
+        ctx.hist("choiceof-container-assertion (C12 finding D7a)", what)
+        return
     if any("invalid token type" in e for e in errs):
         ctx.fail("oracle/strict-taster-drops-connection", "a wrong token type under a strictTaster constraint dropped the whole "
                  "connection instead of failing one call: %s; receive error %r" % (str(case)[:600], errs), replay=case)
@@ -305,22 +316,30 @@ def guarded(ctx, fn, *a):
         return None
 
 
-def run_call(ctx, S, E, tag, family, argspec, pos, kws, vocab=0, direct=None, per_instance=None):
+def run_call(ctx, S, E, tag, family, argspec, pos, kws, vocab=0, direct=None, per_instance=None, raw=None, flags=None):
+    """raw = (count, children of the `arguments` sequence) replaces the honest framing of pos / kws;
+    flags = "__ignoreUnknown__" | "__acceptUnknown__": the schema is RemoteMethodSchema(<flag>=True, **constraints)"""
     if per_instance is None:
         # the interface is declared on the target INSTANCE; instances of one group share one python class
         per_instance = ("g%d" % ctx.rng.randrange(6)) if ctx.rng.random() < 0.3 else False
     ctx.hist("interface_declared_on", "instance (directlyProvides)" if per_instance else "class (@implementer)")
     if direct is None:
         direct = ctx.rng.random() < 0.4                # prototype function or RemoteMethodSchema(**kwargs)
+    if flags:
+        direct = True
     ctx.hist("schema_declared_by", "RemoteMethodSchema(**kwargs)" if direct else "prototype function")
+    ctx.hist("unknown_argument_flag", flags or "-")
     cons = []
     for n, cs, opt in argspec:
         c = S.build(cs)
         cons.append(S.schema.Optional(c, None) if opt else c)
-    res, w = S.call_trial([n for n, _, _ in argspec], cons, pos, [(n, x) for n, x in kws], vocab=vocab, direct=direct,
-                          per_instance=per_instance)
+    res, w = S.call_trial([n for n, _, _ in argspec] + ([flags] if flags else []), cons + ([True] if flags else []),
+                          pos, [(n, x) for n, x in kws], vocab=vocab, direct=direct, per_instance=per_instance, raw=raw)
     out = S.outcome_of(res)
-    case = dict(tag=tag, family=family, argspec=argspec, pos=pos, kws=kws, direct=direct, per_instance=per_instance)
+    count, items = raw if raw is not None else S.flat_items(pos, [(n, x) for n, x in kws])
+    case = dict(tag=tag, family=family, argspec=argspec, count=count, items=items, direct=direct, per_instance=per_instance, flags=flags)
+    if raw is None:
+        case.update(pos=pos, kws=kws)
     rec = dict(case=case, ms=ms_term(S, w.ms))
     calls = w.target.calls
     if len(calls) > 1:
@@ -346,7 +365,27 @@ def run_call(ctx, S, E, tag, family, argspec, pos, kws, vocab=0, direct=None, pe
             ctx.fail("oracle/invoked-but-failed", "the method ran but the caller got %r: %r" % (out, case), replay=case)
     elif not w.alive():
         rec["outcome"] = "dead-dupkey" if any("duplicate key" in e for e in w.recv_errors) else "dead"
-        classify_dead(ctx, w, family, case, "call")
+        if w.recv_errors and all(e.startswith("UnicodeDecodeError") for e in w.recv_errors):
+            # (outside the model: keyword names are ASCII there; such cases are judged here and left out of the correspondence)
+            rec["outcome"] = "dead-nonutf8-name"
+            ctx.fail("oracle/non-utf8-keyword-name-drops-connection", "a STRING token that is not valid UTF-8, standing where "
+                     "ArgumentUnslicer expects a keyword NAME, raised UnicodeDecodeError in six.ensure_str(token): the whole connection "
+                     "was lost instead of that one call failing with a Violation ('unknown argument'): %s; receive error %r"
+                     % (str(case)[:600], w.recv_errors), replay=case)
+        elif flags == "__ignoreUnknown__" and w.recv_errors and all(e.startswith("AssertionError") for e in w.recv_errors):
+            ctx.fail("oracle/ignore-unknown-drops-connection", "a keyword argument the schema does not declare, sent to a method "
+                     "whose RemoteMethodSchema says __ignoreUnknown__=True, tripped `assert accept` in ArgumentUnslicer.receiveChild: "
+                     "the whole connection was lost instead of the argument being dropped / the call failing: %s; receive error %r"
+                     % (str(case)[:600], w.recv_errors), replay=case)
+        else:
+            classify_dead(ctx, w, family, case, "call")
+    elif out[0] in ("exc", "exc-remote") and flags and "AttributeError" in str(out[1]):
+        rec["outcome"] = "failed"
+        ctx.fail("oracle/unknown-flag-attributeerror", "a keyword argument the schema does not declare, sent to a method whose "
+                 "RemoteMethodSchema says %s=True, made checkAllArgs call None.checkObject: the call failed with %r instead of a "
+                 "Violation (or of being accepted): %s" % (flags, out, str(case)[:600]), replay=case)
+        if not w.probe():
+            ctx.fail("oracle/sibling-affected", "after a failed call the connection no longer serves other calls: %r" % (case,), replay=case)
     else:
         rec["outcome"] = "violation"
         if out[0] not in ("violation-local", "violation-remote"):
@@ -357,8 +396,8 @@ def run_call(ctx, S, E, tag, family, argspec, pos, kws, vocab=0, direct=None, pe
                      replay=case)
     ctx.hist("call_outcome", rec["outcome"])
     ctx.hist("call_family", family)
-    ctx.case(["call", argspec, pos, kws], nontrivial=True)
-    ctx.sample(dict(kind="call", family=family, argspec=argspec, pos=str(pos)[:150], kws=str(kws)[:80], outcome=rec["outcome"]))
+    ctx.case(["call", argspec, count, items, flags], nontrivial=True)
+    ctx.sample(dict(kind="call", family=family, argspec=argspec, count=str(count)[:40], items=str(items)[:200], flags=flags, outcome=rec["outcome"]))
     return rec
 
 
@@ -401,6 +440,85 @@ def remote_sweep(ctx, S, E):
     return [r for r in recs if r]
 
 
+def framing_cases(S):
+    """the `arguments` sequence with a count token that does not match what follows, tokens of the wrong kind where a
+    count / a keyword name / a value is expected, and sequences that stop early -- for methods of 0..3 arguments.
+    -> [(argspec, count, children)]"""
+    vals = {"a": (["py", "int"], ["wi", "INT", 5, 5]), "b": (["list", ["py", "bytes"], 2, 0], ["wo", "list", [["ws", False, 1, [65]]]]),
+            "c": (["py", "str"], S.slice_vs(["t", [120]]))}
+    name = lambda n: ["ws", False, len(n), list(n.encode())]
+    out = []
+    for nargs in (0, 1, 2, 3):
+        names = NAMES[:nargs]
+        argspec = [(n, vals[n][0], i > 0) for i, n in enumerate(names)]
+        wires = [vals[n][1] for n in names]
+        for count in range(0, nargs + 3):
+            for npos in range(0, nargs + 2):
+                # npos values sent as if positional (beyond the declared ones: one more integer), the rest by keyword
+                pos = (wires + [["wi", "INT", 9, 9], ["wi", "INT", 9, 9]])[:npos]
+                kw = []
+                for n in names[npos:]:
+                    kw += [name(n), vals[n][1]]
+                out.append((argspec, count, pos + kw))
+        if nargs:
+            five = ["wi", "INT", 5, 5]
+            out.append((argspec, None, []))                                   # no count at all
+            out.append((argspec, None, [name("a"), five]))                    # a name where the count is expected
+            out.append((argspec, ["wi", "NEG", 1, -1], wires[:1]))            # count is a NEG / LONGINT / list / string
+            out.append((argspec, ["wi", "LONGINT", 5, 2 ** 39], wires[:1]))
+            out.append((argspec, ["wo", "list", []], wires[:1]))
+            out.append((argspec, 1000, wires))                                # a huge count
+            out.append((argspec, 0, [name("a")]))                             # a name without its value
+            out.append((argspec, 0, [name("a"), five, name("a"), five]))      # the same keyword twice
+            out.append((argspec, 1, [five, name("a"), five]))                 # a keyword the count already covers
+            out.append((argspec, 0, [name("a"), name("a")]))                  # a name where the value is expected
+            out.append((argspec, 0, [["ws", True, 4, list(b"list")], five]))  # a VOCAB token as (unknown) keyword name
+            out.append((argspec, 0, [["wf", 4609434218613702656], five]))     # a float where a name is expected
+            out.append((argspec, 0, [["wo", "list", []], five]))              # a list where a name is expected
+            out.append((argspec, 0, [name("a"), five, name("zz"), five]))     # an unknown name after a known one
+            out.append((argspec, 0, [["ws", False, 2, [168, 97]], five]))     # a name that is not valid UTF-8
+    return out
+
+
+def binding_cases(S):
+    """every way of declaring three arguments required / Optional (8), every positional count 0..3, every subset of the
+    remaining names given by keyword: which calls bind all required names is decided by checkAllArgs alone (token-level
+    checks cannot see an absent argument).  -> [(argspec, pos wires, kw wires)]"""
+    five = ["wi", "INT", 5, 5]
+    out = []
+    for mask in range(8):
+        argspec = [(n, ["py", "int"], bool(mask >> i & 1)) for i, n in enumerate(NAMES)]
+        for npos in range(4):
+            rest = NAMES[npos:]
+            for sub in range(1 << len(rest)):
+                kws = [[n, five] for i, n in enumerate(rest) if sub >> i & 1]
+                out.append((argspec, [five] * npos, kws))
+    return out
+
+
+def flag_cases(S):
+    """methods whose RemoteMethodSchema carries __ignoreUnknown__ / __acceptUnknown__: calls with declared arguments only,
+    with an unknown keyword before / after / instead of them, with an unknown keyword whose value is a container, and
+    with the unknown name given twice.  -> [(flag, argspec, count, children)]"""
+    name = lambda n: ["ws", False, len(n), list(n.encode())]
+    five, lst = ["wi", "INT", 5, 5], ["wo", "list", [["wi", "INT", 5, 5]]]
+    spec1 = [("a", ["py", "int"], False)]
+    spec2 = [("a", ["py", "int"], False), ("b", ["py", "bytes"], True)]
+    out = []
+    for flag in ("__ignoreUnknown__", "__acceptUnknown__"):
+        for spec in (spec1, spec2):
+            out.append((flag, spec, 1, [five]))
+            out.append((flag, spec, 0, [name("a"), five]))
+            out.append((flag, spec, 1, [five, name("z"), five]))
+            out.append((flag, spec, 0, [name("z"), five, name("a"), five]))
+            out.append((flag, spec, 0, [name("a"), five, name("z"), lst]))
+            out.append((flag, spec, 1, [five, name("z"), five, name("z"), five]))
+            out.append((flag, spec, 1, [five, name("a"), five]))
+            out.append((flag, spec, 0, [name("z"), five]))
+            out.append((flag, spec, 2, [five, five]))
+    return out
+
+
 def call_cases(ctx, S, E):
     rng = ctx.rng
     recs = []
@@ -423,6 +541,12 @@ def call_cases(ctx, S, E):
         recs.append(guarded(ctx, run_call, S, E, tag, "per-instance", [("a", cs, False)], [ws], [], 0, False, grp))
     for tag, argspec, pos, kws in FIXED_CALLS:
         recs.append(guarded(ctx, run_call, S, E, tag, "fixed", argspec, pos, kws))
+    for argspec, pos, kws in binding_cases(S):
+        recs.append(guarded(ctx, run_call, S, E, "binding", "binding", argspec, pos, kws, 0, None, False))
+    for argspec, count, items in framing_cases(S):
+        recs.append(guarded(ctx, run_call, S, E, "framing", "framing", argspec, [], [], 1, None, None, (count, items)))
+    for flag, argspec, count, items in flag_cases(S):
+        recs.append(guarded(ctx, run_call, S, E, "unknown-flag", "unknown-flag", argspec, [], [], 0, True, None, (count, items), flag))
     recs += open_ref_sweep(ctx, S, E, run_call, True)
     for elem in PEND_ELEMS:
         cs, ws = pend_case(S, rng, elem, "list")
@@ -475,6 +599,12 @@ def call_cases(ctx, S, E):
             pos = [wires[0], ["wr", vals[0], 0]] + wires[2:npos if npos > 2 else 2]
             kws = [[NAMES[k], wires[k]] for k in range(max(npos, 2), nargs)]
         kws.sort(key=lambda x: x[0])
+        if family != "ref" and rng.random() < 0.15:
+            # the same children under a count token that is off by one / zero / larger than the method has arguments
+            n0, items = S.flat_items(pos, [(n, x) for n, x in kws])
+            count = rng.choice([n0 + 1, max(0, n0 - 1), 0, nargs + 1, n0 + 2])
+            recs.append(guarded(ctx, run_call, S, E, "gen", "count", argspec, [], [], vocab, None, None, (count, items)))
+            continue
         recs.append(guarded(ctx, run_call, S, E, "gen", family, argspec, pos, kws, vocab))
     return [r for r in recs if r]
 
@@ -489,6 +619,40 @@ FIXED_ANSWERS = [
     ("ok-tuple", ["tuple", [["py", "int"], ["py", "int"]]], ["wo", "tuple", [["wi", "INT", 7, 7], ["wi", "INT", 8, 8]]]),
     ("wrong-type", ["py", "int"], ["ws", False, 1, [65]]),
 ]
+
+
+def choice_container_answers(S):
+    """result constraints that are (or contain) a ChoiceOf whose alternatives are CONTAINERS -- two of the same kind, two
+    of different kinds, a container next to Any / a leaf -- with conforming answers and answers that conform to none of
+    the alternatives.  On the current tree every container under such a ChoiceOf hits the child Unslicer's setConstraint
+    assertion (C12's finding D7a: connection lost, conforming or not); whatever a change makes of that, a value that
+    satisfies no alternative must not reach the callback.  -> [(cs, ws)]"""
+    i1, s1 = ["wi", "INT", 1, 1], ["ws", False, 1, [65]]
+    text = S.slice_vs(["t", [97]])
+    L = lambda c: ["list", c, None, 0]
+    D = lambda c: ["dict", ["py", "bytes"], c, None]
+    St = lambda c: ["set", c, None, None]
+    T = lambda *cs: ["tuple", list(cs)]
+    pairs = [
+        (["choice", [L(["py", "int"]), L(["py", "bytes"])]], [["wo", "list", [i1, s1]], ["wo", "list", [text]], ["wo", "list", [i1, i1]], ["wo", "list", [["wo", "list", []]]]]),
+        (["choice", [D(["py", "int"]), D(["py", "bytes"])]], [["wo", "dict", [s1, i1, ["ws", False, 1, [66]], s1]], ["wo", "dict", [s1, text]], ["wo", "dict", [s1, i1]]]),
+        (["choice", [St(["py", "int"]), St(["py", "bytes"])]], [["wo", "set", [["wo", "tuple", [i1]]]], ["wo", "set", [i1, s1]], ["wo", "set", [i1]], ["wo", "immutable-set", [text]]]),
+        (["choice", [T(["py", "int"], ["py", "int"]), T(["py", "bytes"], ["py", "bytes"])]], [["wo", "tuple", [i1, s1]], ["wo", "tuple", [i1]], ["wo", "tuple", [i1, i1]], ["wo", "tuple", [i1, i1, i1]]]),
+        (["choice", [L(["py", "int"]), T(["py", "int"])]], [["wo", "list", [s1]], ["wo", "tuple", [s1]], ["wo", "tuple", [i1, i1]], ["wo", "list", [i1]]]),
+        (["choice", [L(["py", "int"]), ["py", "int"]]], [["wo", "list", [s1]], ["wo", "list", [i1]], i1, s1]),
+        (["choice", [L(["py", "int"]), ["none"]]], [["wo", "list", [text]], ["wo", "none", []], ["wo", "list", [i1]]]),
+        (["choice", [["py", "str"], ["none"]]], [text, ["wo", "none", []], ["wo", "unicode", [["ws", False, 1, [65]], ["ws", False, 1, [65]]]], i1]),
+        (["choice", [["text", 1, 0], ["text", 2, 2]]], [S.slice_vs(["t", [97, 98, 99]]), S.slice_vs(["t", [97]])]),
+        (["choice", [["bool", True], ["none"]]], [S.slice_vs(["B", False]), S.slice_vs(["B", True])]),
+    ]
+    out = []
+    for cs, wss in pairs:
+        for ws in wss:
+            out.append((cs, ws))
+            out.append((["tuple", [cs, ["py", "int"]]], ["wo", "tuple", [ws, i1]]))
+            out.append((["list", cs, None, 0], ["wo", "list", [ws]]))
+            out.append((["dict", ["py", "bytes"], cs, None], ["wo", "dict", [s1, ws]]))
+    return out
 
 
 VIAS = ["interface", "kwarg", "kwarg-over", "method"]
@@ -580,6 +744,8 @@ def answer_cases(ctx, S, E):
     for tag, cs, ws in FIXED_ANSWERS:
         recs.append(guarded(ctx, run_answer, S, E, tag, "fixed", cs, ws))
     recs += hostile_sweep(ctx, S, E)
+    for i, (cs, ws) in enumerate(choice_container_answers(S)):
+        recs.append(guarded(ctx, run_answer, S, E, "choice-container", "choice-container", cs, ws, 0, VIAS[i % 4]))
     recs += open_ref_sweep(ctx, S, E, run_answer, False)
     for elem in PEND_ELEMS:                          # every OPEN-accepting constraint kind (and a few that refuse OPEN)
         for shape in ("list", "dict", "list2", "tuple-list", "tuple-list-inner"):
@@ -617,23 +783,29 @@ def correspond(ctx, S, calls, answers):
         nbad += 1
         ctx.fail("correspondence/" + kind, what, replay=replay, has_input=False)
 
-    def nm(n):
-        return NAMES.index(n) + 1 if n in NAMES else 26
-    CODE = {"invoked": 1, "violation": 2, "dead": 3}
+    CODE = {"invoked": 1, "violation": 2, "dead": 3, "failed": 5}
     calls = [r for r in calls if r["outcome"] in CODE]          # duplicate dict keys (a protocol error) are not modelled
+
+    def count_term(c):
+        return [] if c is None else ["(WInt 129 %d %d)" % (c, c)] if isinstance(c, int) else [S.to_wobj(c)]
     for lo in range(0, len(calls), 200):
         chunk = calls[lo:lo + 200]
         rows = []
         for r in chunk:
             c = r["case"]
-            pos = coq_list([S.to_wobj(x) for x in c["pos"]])
-            kws = coq_list(["(%d, %s)" % (nm(n), S.to_wobj(x)) for n, x in c["kws"]])
+            items = coq_list(count_term(c["count"]) + [S.to_wobj(x) for x in c["items"]])
             ea = coq_list([S.to_obj(x) for x in r.get("args", [])])
             ek = coq_list(["(%d, %s)" % (nm(n), S.to_obj(x)) for n, x in r.get("kwargs", [])])
-            rows.append("(%s, %s, %s, %s, %s)" % (r["ms"], pos, kws, ea, ek))
-        body = EQB + "Definition cases : list (mschema * list wobj * list (Z * wobj) * list obj * list (Z * obj)) := " + \
+            rows.append("(%s, %s, %s, %s)" % (r["ms"], items, ea, ek))
+        body = EQB + "Definition cases : list (mschema * list wobj * list obj * list (Z * obj)) := " + \
             coq_list(rows) + ".\n" + """
-Eval vm_compute in map (fun x => let '(ms, p, k, ea, ek) := x in ccode (recv_call ms p k) ea ek) cases.
+Definition kw_same (a b : list (Z * obj)) : bool :=
+  (List.length a =? List.length b)%nat &&
+  forallb (fun x => existsb (fun y => Z.eqb (fst x) (fst y) && obj_eqb (snd x) (snd y)) b) a.
+Eval vm_compute in map (fun x => let '(ms, items, ea, ek) := x in
+  match recv_arguments ms items with
+  | CInvoke a' kw' => if list_eqbw obj_eqb ea a' && kw_same ek kw' then 1 else 4
+  | CViol => 2 | CAbort => 3 | CFail => 5 end) cases.
 """
         try:
             (vals,) = ctx.coq_eval("C02_calls_%d" % (lo // 200), body, requires=REQ)
@@ -644,7 +816,7 @@ Eval vm_compute in map (fun x => let '(ms, p, k, ea, ek) := x in ccode (recv_cal
             ctx.traces += 1
             if m != CODE[r["outcome"]]:
                 bad("call", "model and implementation disagree on %s: model code %r (1 invoked with the same arguments, 2 violation, "
-                    "3 connection lost, 4 invoked with other arguments), implementation %s %r %r"
+                    "3 connection lost, 4 invoked with other arguments, 5 failed with another exception), implementation %s %r %r"
                     % (str(r["case"])[:1500], m, r["outcome"], r.get("args"), r.get("kwargs")), dict(case=r["case"], model=m, impl=r["outcome"]))
     ACODE = {"callback": 1, "errback": 2, "dead": 3}
     for lo in range(0, len(answers), 300):
